@@ -312,10 +312,16 @@ pub fn c12(case: &Case, obs: &mut Obs) -> Result<(), Failure> {
     // "for all operands": purity and determinism are claimed for operands that are not valid polygon sets as well
     // (overlapping parts, the same part twice). For calls on these a panic counts as a result like any other: it
     // must be the same panic every time.
+    // Only on the integer lattice families: there every crossing point is representable, so the sweep over such an
+    // operand makes the same finite number of divisions as over a valid one. On float operands, coincident edges of
+    // one operand that cross a third edge at a rounded point can keep the sweep dividing for ever (seen once in
+    // 85 000 histories; the library promises nothing there and a check must not depend on such a call returning).
     let first_unchecked = pool.len();
-    pool.push(MultiPolygon(case.a.0.iter().chain(case.b.0.iter()).cloned().collect()));
-    pool.push(MultiPolygon(case.a.0.iter().chain(case.a.0.iter()).cloned().collect()));
-    pool.push(MultiPolygon(case.b.0.iter().chain(case.b.0.iter()).chain(case.a.0.iter()).cloned().collect()));
+    if case.exact && (case.family == "rect" || case.family == "oct") {
+        pool.push(MultiPolygon(case.a.0.iter().chain(case.b.0.iter()).cloned().collect()));
+        pool.push(MultiPolygon(case.a.0.iter().chain(case.a.0.iter()).cloned().collect()));
+        pool.push(MultiPolygon(case.b.0.iter().chain(case.b.0.iter()).chain(case.a.0.iter()).cloned().collect()));
+    }
     let panic_value = |p: &PanicInfo| -> MP {
         let mut h: u64 = 1469598103934665603;
         for b in p.file.bytes().chain(p.message.bytes().take(48)) {
